@@ -1,6 +1,7 @@
 import Proofs.C08RoundTrip
 import Proofs.C08Stable
 import GoawkModel.C08Scan
+import Proofs.C08Chunk
 /-!
 # C08 — CSV/TSV input follows RFC 4180; CSV output reads back to the same fields
 
@@ -105,9 +106,7 @@ example : csvRecords { sep := [44], comment := [35], header := true }
 
 /-- **No bytes of a neighbouring record.** A record that ended at its line break is parsed to the same fields, and the same
 number of bytes is consumed, whatever bytes follow it in the input (`x` arbitrary: more records, garbage, a half-delivered
-chunk). This is the step on which chunk independence of the scanner rests (`csv_stable` of the design); the lift to the
-whole `bufio.Scanner` loop with the splitter state is checked by correspondence and the all-chunkings oracle only
-(`ChunkIndependent` below is stated, not proved). -/
+chunk). This is the per-record step on which `csv_stable` and `csv_chunk_independent` below rest. -/
 theorem csv_record_independent_of_rest_partial (sep : Bytes) (hs : validSep sep = true) (d x : Bytes) (fs : List Bytes) (r : Bytes)
     (cr : Bool) (h : fieldsFuel sep (d.length + 1) d = (fs, r, false, cr)) :
     fieldsFuel sep ((d ++ x).length + 1) (d ++ x) = (fs, r ++ x, false, cr) :=
@@ -115,19 +114,39 @@ theorem csv_record_independent_of_rest_partial (sep : Bytes) (hs : validSep sep 
 
 example : fieldsFuel [44] 12 [97, 44, 34, 98, 13, 10, 99, 34, 13, 10, 100] = ([[97], [98, 10, 99]], [100], false, true) := by decide
 
-/-- The clause "none of this depends on how the input is chunked", for readers that report EOF by a separate empty `Read`:
-every chunking gives what one piece gives, and that is the specification reader's answer. Stated on the scanner model;
-established by correspondence (model = real scanner on every schedule tried) and the oracle (all chunkings of short
-inputs), not proved. -/
-def ChunkIndependent : Prop :=
-  ∀ (cfg : Cfg) (chunks : List Bytes), validSep cfg.sep = true → (∀ c ∈ chunks, c ≠ []) →
-    csvScanAll cfg false chunks = { names := csvHeader cfg chunks.flatten, recs := csvRecords cfg chunks.flatten }
+/-- **Chunk independence.** "None of this depends on how the input is chunked": for every separator of valid shape and
+every comment setting (none, or any character other than a line feed), whatever chunks the reader delivers — any number,
+any sizes, empty ones included, cuts inside the BOM, inside a multi-byte separator or comment character, inside a quoted
+field or between CR and LF — and whether it reports EOF by a separate `Read` or together with its last chunk, the scanner
+(`csvSplitter.scan` with its `noBOMCheck` / `rowNum` / header state, driven by the `bufio.Scanner` loop) yields the same
+header names, records, fields and `$0` values as for the same bytes delivered in one piece. -/
+theorem csv_chunk_independent (cfg : Cfg) (hs : validSep cfg.sep = true) (hc : 10 ∉ cfg.comment)
+    (eofWith eofWith' : Bool) (chunks chunks' : List Bytes) (h : chunks.flatten = chunks'.flatten) :
+    csvScanAll cfg eofWith chunks = csvScanAll cfg eofWith' chunks' := by
+  rw [csvScanAll_eq_scanWhole cfg hs hc, csvScanAll_eq_scanWhole cfg hs hc, h]
 
-/-- the same for every legal `io.Reader`, including one whose last `Read` returns data together with `io.EOF` (this failed
-before the repair of G08-1; now, like `ChunkIndependent`, it is stated and checked by correspondence and oracle, not proved) -/
-def ChunkIndependentAnyReader : Prop :=
-  ∀ (cfg : Cfg) (chunks : List Bytes) (eofWith : Bool), validSep cfg.sep = true → (∀ c ∈ chunks, c ≠ []) →
-    csvScanAll cfg eofWith chunks = { names := csvHeader cfg chunks.flatten, recs := csvRecords cfg chunks.flatten }
+/-- … in particular equal to one-piece delivery, and to the scanner run on the whole input with EOF known (`scanWhole`) -/
+theorem csv_chunk_independent_one_piece (cfg : Cfg) (hs : validSep cfg.sep = true) (hc : 10 ∉ cfg.comment)
+    (eofWith : Bool) (chunks : List Bytes) :
+    csvScanAll cfg eofWith chunks = csvScanAll cfg false [chunks.flatten] ∧
+    csvScanAll cfg eofWith chunks = scanWhole cfg chunks.flatten :=
+  ⟨csv_chunk_independent cfg hs hc _ _ _ _ (by simp), csvScanAll_eq_scanWhole cfg hs hc _ _⟩
+
+/-- the single-call version (`WellFormed.tokenStable` of the C07 scanner theorem, with the splitter state): a record
+decided before EOF is known is decided identically — same advance, header names, fields, `$0` — on every extension of the
+data, at EOF or not -/
+theorem csv_stable (cfg : Cfg) (hs : validSep cfg.sep = true) (hc : 10 ∉ cfg.comment) (st : St) (buf : Bytes)
+    (n : Nat) (names : Option (List Bytes)) (fs : List Bytes) (t : Bytes)
+    (h : csvScan cfg st buf false = .record n names fs t) :
+    0 < n ∧ n ≤ buf.length ∧ ∀ (x : Bytes) (e : Bool), csvScan cfg st (buf ++ x) e = .record n names fs t :=
+  csvScan_record_stable cfg hs hc st buf n names fs t h
+
+/-- What is still correspondence-only on the input side: the scanner on the whole input equals the specification reader
+(`csv_fields_spec` / `csv_record_text` of the design). Together with `csv_chunk_independent` it would give
+"scanner under any delivery = specification reader". Stated, not proved. -/
+def FieldsSpec : Prop :=
+  ∀ (cfg : Cfg) (x : Bytes), validSep cfg.sep = true → 10 ∉ cfg.comment →
+    scanWhole cfg x = { names := csvHeader cfg x, recs := csvRecords cfg x }
 
 -- the former witness of G08-1 (repaired): header row and data row delivered in one `Read` that also returns `io.EOF`
 example : csvScanAll { sep := [44], header := true } true [[104, 44, 105, 10, 97, 44, 98, 10]] =
